@@ -36,7 +36,7 @@ type recoverCases struct {
 const recoverQueue = "root.@recovery@"
 
 // recoverReplayOps builds what the shim re-sends, in a canonical order with the precedence relation.
-func recoverReplayOps(a *CoreObs, ops []CoreOp) (out []CoreOp, deps [][]int) {
+func recoverReplayOps(a *CoreObs, ops []CoreOp, accepted map[string]int) (out []CoreOp, deps [][]int) {
 	nodeIdx := map[string]int{}
 	appIdx := map[string]int{}
 	add := func(op CoreOp, d ...int) int {
@@ -63,11 +63,8 @@ func recoverReplayOps(a *CoreObs, ops []CoreOp) (out []CoreOp, deps [][]int) {
 	for i := range a.Apps {
 		ap := &a.Apps[i]
 		op := CoreOp{Kind: "app_add", App: ap.ID, Queue: ap.Queue, User: ap.User, Groups: ap.Groups}
-		for j := range ops {
-			if ops[j].Kind == "app_add" && ops[j].App == ap.ID && !ops[j].Malformed {
-				op = ops[j] // the shim re-sends its original request
-				break
-			}
+		if j, ok := accepted[ap.ID]; ok {
+			op = ops[j] // the shim re-sends the request the old core accepted
 		}
 		op.Forced = true
 		op.Malformed = false
@@ -136,12 +133,18 @@ func recoverRun(c *recoverCase) error {
 		return err
 	}
 	c.a = da.observe()
+	accepted := map[string]int{}
 	for i := range c.Ops {
 		st := da.step(&c.Ops[i])
 		c.a = st.Obs
+		for _, e := range st.Events {
+			if e.Kind == "appaccepted" && c.Ops[i].Kind == "app_add" {
+				accepted[e.App] = i
+			}
+		}
 	}
 	// the shim's knowledge and the replay order
-	rops, deps := recoverReplayOps(c.a, c.Ops)
+	rops, deps := recoverReplayOps(c.a, c.Ops, accepted)
 	order := recoverOrder(NewRng(c.Shuffle), len(rops), deps)
 	// core B (fresh: newCoreDriver clears the user/group manager and creates a new cluster context)
 	db, err := newCoreDriver(&c.World)
